@@ -589,6 +589,35 @@ def id3h_sweep(samples):
             for ext in (b"", b"\0\0\0", b"\0\0\0\0", b"\0\0\0\x03", b"\0\0\0\x04", b"\0\0\0\x06", b"\0\0\0\x0a", b"\0\0\0\x7f", b"\0\0\0\x80", b"\0\0\1\0",
                         b"\x7f\x7f\x7f\x7f", b"\xff\xff\xff\xff", b"TIT2", b"TPE1", b"TT2\0", b"XXXX", b"TIT\xb2", b"APIC"):
                 yield b"ID3" + bytes([vmaj, 0, flags]) + b"\0\0\0\x40" + ext + body
+    # v2.2/v2.3 with the unsynchronisation flag: the extended header (size field and data) is read de-unsynchronised
+    # (_read_unsynched: FF 00 -> FF, the 00 behind a final FF is consumed, a missing byte is read in a further round);
+    # v2.4 and tags without the flag read it raw
+    exts = [b"\0\0\0\x0a\x80\0\0\0\0\0\x8a\xff\0\xf4\xf8",        # the CRC 8A FF F4 F8, stuffed (known finding C14-v23-ext-header-stuffed)
+            b"\0\0\0\x0a\x80\0\0\0\0\0\x8a\xff\xf4\xf8",           # ... not stuffed
+            b"\0\0\0\x0a\x80\0\0\0\0\0\x8a\xf4\xf8\xff\0",        # FF 00 at the end of the extended header: the 00 is consumed
+            b"\0\0\0\x0a\x80\0\0\0\0\0\x8a\xf4\xf8\xff",           # a final FF, a frame id (or nothing) behind it: the byte is given back
+            b"\0\0\0\x0a\x80\0\0\0\0\0\x8a\xf4\xf8\xff\0\0",
+            b"\0\0\0\x06\xff\0\xff\0\xff\0\xff\0\xff\0\xff\0",   # every byte stuffed: several rounds
+            b"\0\0\0\x06\xff\0\xff\0\xff\0\xff\0\xff\0\xff",
+            b"\0\0\0\x06\xff\0\xff\0\xff\0\xff\0\xff\0",
+            b"\0\0\0\x06\xff\xff\0\0\xff\xe0\xff\0\0\xff",
+            b"\0\0\0\xff\0\x06\0\0\0\0\0\0",                     # the size field itself stuffed: 00 00 00 FF
+            b"\0\0\xff\0\0\0",                                    # ... 00 00 FF 00 -> 65280 bytes wanted
+            b"\xff\0\xff\0\xff\0\xff\0",                            # FF FF FF FF
+            b"\xff\0\xff\0\xff\0\xff",
+            b"\0\0\0\xff", b"\0\0\0\xff\0", b"\0\0\0\0\xff\0", b"\0\0\0\x01\xff", b"\0\0\0\x01\xff\0", b"\0\0\0\x02\xff\0\xff",
+            b"TIT2", b"TIT\xff\0", b"TT2\0", b"\xff\0TIT2"]
+    for vmaj in (2, 3, 4):
+        for flags in (0x40, 0x80, 0xC0, 0xE0):
+            for ext in exts:
+                for tail in (b"", body, b"\0" + body, b"\xff\0" + body):
+                    yield b"ID3" + bytes([vmaj, 0, flags]) + b"\0\0\1\x06" + ext + tail
+    long = b"\0\0\1\x2c" + (b"\xff\0" * 40 + b"ab\xff\0\0" * 30 + b"\xff\xfe\0" * 40 + b"\xff\0\xff\0\xff" * 20)
+    for vmaj in (3, 4):
+        for flags in (0x40, 0xC0):
+            yield b"ID3" + bytes([vmaj, 0, flags]) + b"\0\0\3\x06" + long + body
+            for cut in (14, 15, 16, 100, 101, 160, 161, 162, 300, 301, 302, 303, 313, 314, 315, 400, 401):
+                yield (b"ID3" + bytes([vmaj, 0, flags]) + b"\0\0\3\x06" + long)[:cut]
 
 
 def bpi_impl(f):
@@ -1417,6 +1446,289 @@ FLAC_SEEDS = [flac_file([(0, flac_si()), (4, flac_vc()), (3, b"\0" * 36), (5, fl
               b"ID3\x03\x00\x00\x00\x00\x00\x0a" + b"\0" * 10 + flac_file([(0, flac_si()), (1, b"\0" * 4)])]
 
 
+# ------------------------------------------------------------------------------------------- ASF
+def asf_impl(f):
+    from mutagen.asf import ASF
+    return ASF(f)
+
+
+def asf_canon(a, data):
+    i = a.info
+    return (fh(i.length), i.channels, i.sample_rate, i.bitrate, len(a.tags), len(a._header.objects), i.codec_type, i.codec_name, i.codec_description)
+
+
+def asf_expect(l, data):
+    from mutagen.asf._util import CODECS
+    has_fp, length, preroll, ch, rate, br, ntags, nobj, has_codec = l[:9]
+    ln = max((length / 10000000.0) - (preroll / 1000.0), 0.0) if has_fp else 0.0
+    ctype = cname = cdesc = ""
+    if has_codec:
+        cid, n = l[9], l[10]
+        name = bytes(l[11:11 + n])
+        m = l[11 + n]
+        desc = bytes(l[12 + n:12 + n + m])
+        ctype = CODECS.get(cid, "") if cid >= 0 else ""
+        cname = name.decode("utf-16-le").strip("\x00").strip()
+        cdesc = desc.decode("utf-16-le").strip("\x00").strip()
+    return (fh(ln), ch, rate, br, ntags, nobj, ctype, cname, cdesc)
+
+
+ASF_G = {"header": "3026b2758e66cf11a6d900aa0062ce6c", "content": "3326b2758e66cf11a6d900aa0062ce6c", "extcont": "40a4d0d207e3d21197f000a0c95ea850",
+         "fileprop": "a1dcab8c47a9cf118ee400c00c205365", "stream": "9107dcb7b7a9cf118ee600c00c205365", "codecs": "4052d1861d31d011a3a400a0c90348f6",
+         "hdrext": "b503bf5f2ea9cf118ee300c00c205365", "metadata": "eacbf8c5af5b77488467aa8c44fa4cca", "metalib": "941c23449894d149a1411d134e457054",
+         "padding": "74d40618dfca0945a4ba9aabcb96aae8", "bitrate": "ce75f87b8d46d1118d82006097c9a2b2", "unknown": "00112233445566778899aabbccddeeff"}
+ASF_G = {k: bytes.fromhex(v) for k, v in ASF_G.items()}
+
+
+def asf_obj(kind, payload, size=None):
+    return ASF_G[kind] + struct.pack("<Q", ((len(payload) + 24) if size is None else size) & (2 ** 64 - 1)) + payload
+
+
+def asf_hdr(objs, n=None, size=None, guid=None):
+    body = b"".join(objs)
+    return (ASF_G["header"] if guid is None else guid) + struct.pack("<QL", ((len(body) + 30) if size is None else size) & (2 ** 64 - 1), len(objs) if n is None else n) + b"\x01\x02" + body
+
+
+def asf_ext(inner, datasize=None):
+    return asf_obj("hdrext", b"\0" * 16 + b"\x06\0" + struct.pack("<I", len(inner) if datasize is None else datasize) + inner)
+
+
+def u16(s):
+    return s.encode("utf-16-le")
+
+
+def asf_cd(texts=("t", "a", "", "d", ""), lens=None):
+    enc = [u16(t) + (b"\0\0" if t else b"") for t in texts]
+    return asf_obj("content", struct.pack("<HHHHH", *(lens or [len(e) for e in enc])) + b"".join(enc))
+
+
+def asf_ecd_attr(name, typ, val, nlen=None, vlen=None):
+    n = name if isinstance(name, bytes) else u16(name) + b"\0\0"
+    return struct.pack("<H", len(n) if nlen is None else nlen) + n + struct.pack("<HH", typ, len(val) if vlen is None else vlen) + val
+
+
+def asf_ecd(attrs, count=None):
+    return asf_obj("extcont", struct.pack("<H", len(attrs) if count is None else count) + b"".join(attrs))
+
+
+def asf_md_attr(name, typ, val, nlen=None, vlen=None):
+    n = name if isinstance(name, bytes) else u16(name) + b"\0\0"
+    return struct.pack("<HHHHI", 0, 1, len(n) if nlen is None else nlen, typ, len(val) if vlen is None else vlen) + n + val
+
+
+def asf_md(attrs, kind="metadata", count=None):
+    return asf_obj(kind, struct.pack("<H", len(attrs) if count is None else count) + b"".join(attrs))
+
+
+def asf_fp(length=50000000, preroll=1000, cut=None):
+    d = b"\0" * 40 + struct.pack("<QQQ", length, 0, preroll) + b"\0" * 16
+    return asf_obj("fileprop", d if cut is None else d[:cut])
+
+
+def asf_sp(ch=2, rate=44100, br=16000, cut=None):
+    d = b"\0" * 54 + b"\x61\x01" + struct.pack("<HII", ch, rate, br) + b"\0" * 12
+    return asf_obj("stream", d if cut is None else d[:cut])
+
+
+def asf_codec_entry(typ=2, name=u16("WMA 9") + b"\0\0", desc=u16(" 64 kbps ") + b"\0\0", info=b"\x61\x01", units=(None, None, None)):
+    u = [len(name) // 2, len(desc) // 2, len(info)]
+    u = [a if b is None else b for a, b in zip(u, units)]
+    return struct.pack("<HH", typ, u[0]) + name + struct.pack("<H", u[1]) + desc + struct.pack("<H", u[2]) + info
+
+
+def asf_cl(entries, count=None, cut=None):
+    d = b"\0" * 16 + struct.pack("<I", len(entries) if count is None else count) + b"".join(entries)
+    return asf_obj("codecs", d if cut is None else d[:cut])
+
+
+def asf_nested(depth, inner=b""):
+    """a header object whose only child is a header extension whose only sub-object is a header extension ... (depth levels)"""
+    for _ in range(depth):
+        inner = asf_ext(inner)
+    return asf_hdr([inner])
+
+
+ASF_VALUES = {0: u16("text") + b"\0\0", 1: b"\x01\x02\x03", 2: b"\x01\0\0\0", 3: b"\x07\0\0\0", 4: b"\x07" + b"\0" * 7, 5: b"\x07\0", 6: b"g" * 16}
+
+
+def asf_sweep(samples):
+    for k, name in enumerate(sorted(n for n in samples if n.endswith(".wma"))[:4]):
+        s = samples[name][:5400]
+        if k == 0:
+            yield from field_sweep(s, list(range(16, 30)) + list(range(46, 54)), widths=(1, 4))        # header size / object count, first object size
+        yield from truncations(s, 60 if k == 0 else 31)
+    base = [asf_fp(), asf_sp(), asf_cd(), asf_ecd([asf_ecd_attr("WM/Year", 0, u16("2000") + b"\0\0")]), asf_cl([asf_codec_entry()]),
+            asf_ext(asf_md([asf_md_attr("a", 3, ASF_VALUES[3])]) + asf_md([asf_md_attr("b", 2, b"\x01\0")], "metalib") + asf_obj("padding", b"\0" * 8)), asf_obj("padding", b"\0" * 10)]
+    yield asf_hdr(base)
+    full = asf_hdr(base)
+    for k in range(0, len(full) + 1, 3):
+        yield full[:k]
+    # header: object count / size against the content
+    for n in (0, 1, 6, 7, 8, 9, 255, 2 ** 16, 2 ** 32 - 1):
+        yield asf_hdr(base, n=n)
+        yield asf_hdr(base, n=n) + b"\0" * 100
+    for sz in (0, 29, 30, 31, 53, 54, 55, 100, len(full) - 1, len(full), len(full) + 1, 2 ** 32, 2 ** 63, 2 ** 64 - 1):
+        yield asf_hdr(base, size=sz)
+    yield asf_hdr(base, guid=ASF_G["content"]) ; yield asf_hdr([asf_obj("header", b"\0" * 6)]) ; yield asf_hdr([asf_ext(asf_obj("header", b"\0" * 6))])
+    # object sizes: below the object header (a negative payload reads to the end), beyond the header / the file, 64-bit
+    for sz in (0, 1, 23, 24, 25, 34, 35, 100, 2 ** 31, 2 ** 32, 2 ** 63 - 1, 2 ** 63, 2 ** 63 + 23, 2 ** 63 + 24, 2 ** 64 - 1):
+        for kind in ("padding", "unknown", "fileprop", "hdrext"):
+            yield asf_hdr([asf_fp(), asf_obj(kind, b"\0" * 10, sz), asf_sp()])
+            yield asf_hdr([asf_fp(), asf_obj(kind, b"\0" * 10, sz), asf_sp()], size=2 ** 64 - 1)
+    for kind in ASF_G:
+        for n in (0, 1, 2, 10, 22, 46, 66, 100):
+            yield asf_hdr([asf_obj(kind, b"\0" * n)]) ; yield asf_hdr([asf_obj(kind, b"\xff" * n)]) ; yield asf_hdr([asf_ext(asf_obj(kind, b"\x01" * n))])
+    # attributes: every type with every length around the exact one, in the three attribute objects
+    for typ in range(0, 9):
+        for val in [ASF_VALUES.get(typ, b"xy")] + [b"\x01" * k for k in (0, 1, 2, 3, 4, 5, 8, 9)] + [b"\x00\xd8", b"\x00\xdc", b"\x00\xd8\x00\xdc", b"\x00\xd8a\x00"]:
+            yield asf_hdr([asf_ecd([asf_ecd_attr("n", typ, val)])])
+            yield asf_hdr([asf_ext(asf_md([asf_md_attr("n", typ, val)]))])
+            yield asf_hdr([asf_ext(asf_md([asf_md_attr("n", typ, val)], "metalib"))])
+    for nm in (b"", b"a", b"a\0", b"a\0\0", b"\x00\xd8", b"\x00\xdc\0\0", b"\x00\xd8\x00\xdc\0\0", b"a\0" * 300):
+        yield asf_hdr([asf_ecd([asf_ecd_attr(nm, 3, ASF_VALUES[3])])]) ; yield asf_hdr([asf_md([asf_md_attr(nm, 3, ASF_VALUES[3])])])
+    for v in (0, 1, 2, 3, 5, 100, 0xFFFF):
+        yield asf_hdr([asf_ecd([asf_ecd_attr("n", 1, b"abc", nlen=v)])]) ; yield asf_hdr([asf_ecd([asf_ecd_attr("n", 1, b"abc", vlen=v)])])
+        yield asf_hdr([asf_md([asf_md_attr("n", 1, b"abc", nlen=v)])]) ; yield asf_hdr([asf_md([asf_md_attr("n", 1, b"abc", vlen=v * 65537)])])
+        yield asf_hdr([asf_ecd([asf_ecd_attr("n", 3, ASF_VALUES[3])] * 2, count=v)]) ; yield asf_hdr([asf_md([asf_md_attr("n", 5, ASF_VALUES[5])] * 2, count=v)])
+    # content description lengths, file / stream properties cuts
+    for lens in ((0, 0, 0, 0, 0), (1, 0, 0, 0, 0), (2, 2, 2, 2, 2), (4, 0, 6, 0, 0), (0xFFFF, 0, 0, 0, 2), (3, 3, 0, 0, 0)):
+        yield asf_hdr([asf_cd(("ab", "c", "", "\ud7ff", ""), lens)])
+    yield asf_hdr([asf_obj("content", b"\x02\0\0\0\0\0\0\0\0\0" + b"\x00\xd8")]) ; yield asf_hdr([asf_obj("content", b"\x02\0\0\0\0\0\0\0\0")])
+    for cut in (0, 39, 40, 63, 64, 65, 80):
+        yield asf_hdr([asf_fp(cut=cut)]) ; yield asf_hdr([asf_sp(cut=cut)])
+    for ln, pr in ((0, 0), (1, 0), (10 ** 7, 999), (10 ** 7, 1001), (2 ** 64 - 1, 0), (0, 2 ** 64 - 1), (2 ** 64 - 1, 2 ** 64 - 1)):
+        yield asf_hdr([asf_fp(ln, pr), asf_fp(5, 0)]) ; yield asf_hdr([asf_fp(5, 0), asf_fp(ln, pr)])
+    for v in (0, 1, 0xFFFF, 2 ** 32 - 1):
+        yield asf_hdr([asf_sp(v & 0xFFFF, v, v)])
+    # codec list: counts, entry kinds, unit counts running past the data, codec info sizes, texts that do not decode
+    ent = asf_codec_entry()
+    for cnt in (0, 1, 2, 3, 255, 2 ** 32 - 1):
+        yield asf_hdr([asf_cl([asf_codec_entry(1), ent], cnt)]) ; yield asf_hdr([asf_cl([asf_codec_entry(1), asf_codec_entry(3)], cnt)])
+    c = asf_cl([asf_codec_entry(1), ent])
+    for cut in range(0, len(c) - 24 + 1):
+        yield asf_hdr([asf_cl([asf_codec_entry(1), ent], cut=cut)])
+    for units in ((0, 0, 0), (0xFFFF, None, None), (None, 0xFFFF, None), (None, None, 0xFFFF), (None, None, 1), (None, None, 3), (1, 1, 2)):
+        yield asf_hdr([asf_cl([asf_codec_entry(units=units)])]) ; yield asf_hdr([asf_cl([asf_codec_entry(units=units)]), asf_cl([ent])])
+    for cid in (0, 1, 0x161, 0x162, 0xFFFE, 0xFFFF, 0x1234):
+        yield asf_hdr([asf_cl([asf_codec_entry(info=struct.pack("<H", cid))])])
+    yield asf_hdr([asf_cl([asf_codec_entry(name=b"\x00\xd8", desc=b"\x00\xdc")])]) ; yield asf_hdr([asf_cl([asf_codec_entry(name=u16(" x \0"), desc=u16("\0\0"))])])
+    # header extension: data size against the content, sub-object sizes, nesting (a nested extension recurses)
+    sub = asf_md([asf_md_attr("a", 3, ASF_VALUES[3])])
+    for ds in (0, 1, 23, 24, len(sub) - 1, len(sub), len(sub) + 1, 2 * len(sub), 2 ** 32 - 1):
+        yield asf_hdr([asf_ext(sub + sub, ds)])
+    for sz in (0, 1, 2, 23, 24, 25, len(sub), len(sub) + 5, 2 ** 32, 2 ** 64 - 1):
+        yield asf_hdr([asf_ext(asf_obj("metadata", sub[24:], sz) + sub)])
+    for k in range(0, 60):
+        yield asf_hdr([asf_ext(sub)[:24 + k]], size=2 ** 32)
+    for depth in (1, 2, 3, 10, 40, 60):
+        inner = sub
+        for _ in range(depth):
+            inner = asf_ext(inner)
+        yield asf_hdr([inner]) ; yield asf_hdr([inner[:-3]])
+    # header extensions nested in each other, deeper than the interpreter's recursion limit (one frame per level if they were parsed)
+    for depth in (2, 900, 1000, 2000):
+        yield asf_nested(depth) ; yield asf_hdr([asf_fp(), asf_ext(sub + asf_nested(depth)[30:])])
+
+
+ASF_SEEDS = [asf_hdr([asf_fp(), asf_sp(), asf_cd(), asf_ecd([asf_ecd_attr("WM/Year", 0, u16("2000") + b"\0\0"), asf_ecd_attr("b", 2, ASF_VALUES[2]), asf_ecd_attr("q", 4, ASF_VALUES[4])]),
+                      asf_cl([asf_codec_entry(1), asf_codec_entry()]), asf_ext(asf_md([asf_md_attr("a", 3, ASF_VALUES[3]), asf_md_attr("w", 5, ASF_VALUES[5])]) +
+                                                                                asf_md([asf_md_attr("g", 6, ASF_VALUES[6])], "metalib")), asf_obj("padding", b"\0" * 20)]) + b"\0" * 50]
+ASF_SEEDS += [asf_nested(1000), asf_nested(2000)]
+ASF_SEEDS += [asf_hdr([asf_fp(), asf_sp(), asf_ecd([asf_ecd_attr("k%d" % t, t, ASF_VALUES[t]) for t in range(7)])]),
+              asf_hdr([asf_sp(), asf_cl([asf_codec_entry(1), asf_codec_entry(3), asf_codec_entry()]), asf_fp(10 ** 8, 3000)]),
+              asf_hdr([asf_ext(asf_md([asf_md_attr("m%d" % t, t, ASF_VALUES[t] if t != 2 else b"\x01\0") for t in range(7)]) + asf_ext(asf_md([asf_md_attr("l", 0, ASF_VALUES[0])], "metalib"))), asf_cd()]),
+              asf_hdr([asf_cd(("Title", "Author", "(c)", "Desc", "5")), asf_obj("bitrate", b"\x01\0\x01\0\0\xfa\0\0"), asf_obj("unknown", b"xyz"), asf_fp(), asf_sp(1, 8000, 1000)]) + b"data" * 10]
+
+
+# ------------------------------------------------------------------------------------------- OggFLAC
+def oggflac_impl(f):
+    """OggFileType.load as it is (its exception mapping included), with OggFLACStreamInfo._post_tags (OggPage.find_last) left out"""
+    from mutagen.oggflac import OggFLAC, OggFLACStreamInfo
+
+    class _Info(OggFLACStreamInfo):
+        def _post_tags(self, fileobj):
+            pass
+
+    class _Loader(OggFLAC):
+        _Info = None
+    _Loader._Info = _Info
+    return _Loader(f)
+
+
+def oggflac_canon(F, data):
+    i = F.info
+    return (i.min_blocksize, i.max_blocksize, i.sample_rate, i.channels, i.bits_per_sample, i.total_samples, fh(i.length), i.serial, len(F.tags))
+
+
+def oggflac_expect(l, data):
+    mn, mx, rate, ch, bps, total, serial, kept = l
+    return (mn, mx, rate, ch, bps, total, fh(total / float(rate)), serial, kept)
+
+
+def ogf_head(si=None, major=1, minor=0, npk=1, marker=b"fLaC", magic=b"\x7fFLAC", cut=None):
+    pk = magic + bytes([major, minor]) + struct.pack(">H", npk) + marker + b"\0\0\0\x22" + (flac_si() if si is None else si)
+    return pk if cut is None else pk[:cut]
+
+
+def ogf_comment(vc=None, hdr=b"\x84\0\0\x10"):
+    return hdr + (flac_vc() if vc is None else vc)
+
+
+def ogf_pages(packets, serial=1, seq0=0, flags0=2):
+    out = b""
+    for k, pk in enumerate(packets):
+        lac = [255] * (len(pk) // 255) + [len(pk) % 255]
+        out += ogg_page(lac, pk, flags0 if k == 0 else 0, serial=serial, seq=seq0 + k)
+    return out
+
+
+def oggflac_sweep(samples):
+    s = samples["empty.oggflac"]
+    yield from field_sweep(s[:260], range(0, 100), widths=(1, 4))
+    yield from truncations(s, 200)
+    head, com = ogf_head(), ogf_comment()
+    yield ogf_pages([head, com])
+    junk = ogg_page([4], b"abcd", 0, serial=9)
+    # the identification packet: cuts, version, marker, magic, stream info fields
+    for cut in range(0, len(head) + 1):
+        yield ogf_pages([head[:cut], com])
+    for major, minor in ((0, 0), (1, 0), (1, 1), (2, 0), (255, 255)):
+        yield ogf_pages([ogf_head(major=major, minor=minor), com])
+    for marker in (b"fLaC", b"flac", b"fLa\0"):
+        yield ogf_pages([ogf_head(marker=marker), com])
+    for magic in (b"\x7fFLAC", b"\x7fFLAD", b"FLAC\x7f"):
+        yield ogf_pages([ogf_head(magic=magic), com]) ; yield junk + ogf_pages([ogf_head(magic=magic)]) + ogf_pages([head, com], serial=5)
+    for rate in (0, 1, 44100, 2 ** 20 - 1):
+        for total in (0, 1, 2 ** 36 - 1):
+            yield ogf_pages([ogf_head(flac_si(rate, 2, 16, total)), com])
+    # the comment packet: other streams' pages in between, wrong sequence / serial, continued and incomplete pages, no packet at all
+    yield ogf_pages([head]) ; yield ogf_pages([head]) + junk * 3 ; yield junk * 2 + ogf_pages([head]) + junk + ogf_pages([com], seq0=1, flags0=0) + junk
+    yield ogf_pages([head]) + ogf_pages([com], seq0=5, flags0=0) ; yield ogf_pages([head]) + ogf_pages([com], serial=2, seq0=1, flags0=0)
+    yield ogf_pages([head]) + ogg_page([], b"", 0, seq=1) + ogf_pages([com], seq0=2, flags0=0)
+    yield ogf_pages([head]) + ogg_page([], b"", 0, seq=1) + ogg_page([5], b"hello", 1, seq=2)                 # continued page after a page without packets
+    big = ogf_comment(flac_vc(comments=[b"TITLE=" + b"x" * 900]))
+    yield ogf_pages([head]) + ogg_page([255], big[:255], 0, seq=1) + ogg_page([255, 255, len(big) - 765], big[255:], 1, seq=2)
+    yield ogf_pages([head]) + ogg_page([255], big[:255], 0, seq=1) + ogg_page([255], big[255:510], 1, seq=3)
+    yield ogf_pages([head]) + ogg_page([255], big[:255], 0, seq=1) + junk + ogg_page([255, 255, len(big) - 765], big[255:], 1, seq=2)
+    yield ogf_pages([head]) + ogg_page([255], big[:255], 0, seq=1)
+    yield ogf_pages([head]) + ogg_page([10, 4], com[:10] + b"next", 1, seq=1)
+    for hdr in (b"", b"\x84", b"\x84\0\0", b"\x84\0\0\x10", b"\x04\xff\xff\xff"):
+        yield ogf_pages([head, ogf_comment(hdr=hdr)])
+    for cnt in (0, 1, 3, 4, 5, 255, 2 ** 32 - 1):
+        yield ogf_pages([head, ogf_comment(flac_vc(count=cnt))])
+    for vl in (0, 2, 3, 4, 100, 2 ** 31, 2 ** 32 - 1):
+        yield ogf_pages([head, ogf_comment(flac_vc(vlen=vl))])
+    for ln in (0, 6, 7, 8, 100, 2 ** 31, 2 ** 32 - 1):
+        yield ogf_pages([head, ogf_comment(flac_vc(comments=[(ln, b"TITLE=x"), b"a=b"]))])
+    full = ogf_pages([head, com])
+    for k in range(len(full) + 1):
+        yield full[:k]
+    yield from field_sweep(full, range(0, 140, 2), widths=(1,))
+
+
+OGGFLAC_SEEDS = [ogf_pages([ogf_head(), ogf_comment(), b"\xff\xf8" + b"\0" * 20]), ogg_page([4], b"abcd", 2, serial=9) + ogf_pages([ogf_head(flac_si(96000, 6, 24, 1000)), ogf_comment(flac_vc(comments=[b"A=1", b"B=2"]))], serial=3)]
+
+
 # ------------------------------------------------------------------------------------------- registry
 LOADERS = {
     "Musepack": dict(impl=mpc_impl, canon=mpc_canon, expect=mpc_expect, sweep=mpc_sweep,
@@ -1454,7 +1766,7 @@ LOADERS = {
                       mirrors="optimfrog.OptimFROGInfo.__init__"),
     "ID3Header": dict(impl=id3h_impl, canon=id3h_canon, expect=id3h_expect, sweep=id3h_sweep, coq=("Parse_id3", "id3header_load", "id3h_id"),
                       own=lambda n: n.endswith((".id3", ".mp3")) or n == "synth4", max_len=1024,
-                      mirrors="id3._tags.ID3Header.__init__ (incl. extended header and read_full)"),
+                      mirrors="id3._tags.ID3Header.__init__ (incl. extended header, read_full and _read_unsynched)"),
     "OggOpusInfo": dict(impl=ogo_impl, canon=ogo_canon, expect=ogv_expect, sweep=ogg_codec_sweep("example.opus", OPUS_ID),
                         coq=("Parse_ogg", "oggopus_info_load", "ogg_id"), own=lambda n: n.endswith(".opus") or n == "synth1", allowed=("EOFError",), max_len=3000,
                         mirrors="ogg.OggPage.__init__ + oggopus.OggOpusInfo.__init__ (EOFError mapped by OggFileType.load)"),
@@ -1491,6 +1803,14 @@ LOADERS = {
                  own=lambda n: n.endswith(".flac"), seeds=FLAC_SEEDS, max_len=4096,
                  mirrors="flac.FLAC.load: StrictFileObject.read, __check_header (ID3 skip), __read_metadata_block (dispatch, _distrust_size, one CueSheet / SeekTable), "
                          "StreamInfo.load, CueSheet.load, Picture.load, VCFLACDict (VComment.load framing=False, strict reads), the block loop, info / bitrate"),
+    "ASF": dict(impl=asf_impl, canon=asf_canon, expect=asf_expect, sweep=asf_sweep, coq=("Parse_asf", "asf_load", "asf_id"), cmd="c04_load_asf",
+                own=lambda n: n.endswith(".wma"), seeds=ASF_SEEDS, max_len=5400,
+                mirrors="asf.ASF.load: HeaderObject.parse_size / parse_full (object loop, GUID dispatch, exception mapping), ContentDescription, ExtendedContentDescription, "
+                        "FileProperties, StreamProperties, CodecList, HeaderExtension (sub-object loop, recursion), Metadata, MetadataLibrary .parse, _attrs.*Attribute.parse"),
+    "OggFLAC": dict(impl=oggflac_impl, canon=oggflac_canon, expect=oggflac_expect, sweep=oggflac_sweep, coq=("Parse_oggflac", "oggflac_load", "oggflac_id"), cmd="c04_load_oggflac",
+                    own=lambda n: n.endswith(".oggflac") or n == "synth1", seeds=OGGFLAC_SEEDS, max_len=3000,
+                    mirrors="oggflac.OggFLACStreamInfo.__init__ + OggFLACVComment.__init__ under OggFileType.load's mapping (ogg.OggPage.__init__, OggPage.to_packets, "
+                            "flac.StreamInfo.load, VComment.load framing=False); OggFLACStreamInfo._post_tags / OggPage.find_last are NOT mirrored"),
     "DSF": dict(impl=dsf_impl, canon=dsf_canon, expect=dsf_expect, sweep=dsf_sweep, coq=("Parse_dsf", "dsf_load", "dsf_id"), cmd="c04_load_dsf",
                 own=lambda n: n.endswith(".dsf"), seeds=DSF_SEEDS, max_len=512,
                 mirrors="dsf.DSF.load up to the ID3 header: DSFFile (DSDChunk, FormatChunk, DataChunk .load), _DSFID3._pre_load_header (seek to the "
